@@ -328,9 +328,18 @@ def pkg_accepts_parts(text: str) -> bool:
         if part == "<empty>":
             continue
         try:
-            SpecifierSet(part)
+            ss = SpecifierSet(part)
         except PkgInvalid:
             return False
+        # ... over the PEP 440 VERSION grammar: packaging's `~=` clause folds case beyond ASCII (`~=1.0.po\u017ft1` is
+        # accepted although the operand is not a version, fixed defect D25); such strings are "every other string"
+        for c in ss:
+            v = c.version[:-2] if c.version.endswith(".*") else c.version
+            if c.operator != "===":
+                try:
+                    Version(v)
+                except Exception:  # noqa: BLE001
+                    return False
     return True
 
 
@@ -338,8 +347,16 @@ def run_c17(run: core.Run, n: int) -> None:
     rng = run.rng
     n_oracle = 0
     kinds: dict[str, int] = {}
-    for i in range(n):
-        if i % 4 == 3:
+    # the special forms first, every run: `<empty>` in every position of a `||` chain (seed C17e: all-empty chains), bare
+    # `||`, blanks around `<empty>`, and operands packaging's specifier grammar accepts beyond the version grammar (D25)
+    specials = ["<empty>", "<empty>||<empty>", "<empty>||<empty>||<empty>", ">=1||<empty>", "<empty>||>=1", ">=1||<empty>||<2",
+                "<empty>||<empty>||==1.*", "||", ">=1||", "||>=1", "<empty>|| <empty>", " <empty>", "<empty> ", "<empty>,>=1", "",
+                "~=1.0.po\u017ft1", "~=1.0.prev\u0131ew1", ">=1.0.po\u017ft1", "==1.0.po\u017ft1", "~=1.0.POST1", "~=1.0.Post1||<empty>",
+                "==1.0.\u0131*", "~=1.\u0660"]
+    for i in range(n + len(specials)):
+        if i < len(specials):
+            text = specials[i]
+        elif i % 4 == 3:
             text = near_miss(rng)
         else:
             text = ",".join(spell_clause(rng) for _ in range(rng.choice([1, 1, 2, 3])))
